@@ -84,6 +84,7 @@ type Run struct {
 	local     *Object
 	fnSeen    map[string]bool
 	fconv     map[[2]int]*Term
+	ufMemo    map[string]*Term
 
 	frame *Frame
 	depth int
